@@ -78,6 +78,9 @@ func sameOps(a, b []cop) bool {
 	return true
 }
 
+var hugeLeft = 48
+var hugeInCase bool
+
 func genOps(rng *Rng, n int, long bool) []cop {
 	var ops []cop
 	off := uint32(0)
@@ -119,8 +122,11 @@ func genOps(rng *Rng, n int, long bool) []cop {
 			if rng.Chance(10) {
 				ln = []int{127, 128, 255, 256, 300}[rng.Intn(5)]
 			}
-			if long && rng.Chance(2) {
+			if long && hugeLeft > 0 && !hugeInCase && rng.Chance(2) {
+				// each of these costs about a megabyte of Gallina text: a fixed budget per run
 				ln = []int{65535, 40000}[rng.Intn(2)]
+				hugeLeft--
+				hugeInCase = true
 			}
 			b := make([]byte, ln)
 			for j := range b {
@@ -325,17 +331,18 @@ func cmdCodec(args []string) {
 	rng := NewRng(*seed)
 	s := codecSummary{Engine: "codec", Kinds: map[string]int{}, Widths: map[string]int{}, Deltas: map[string]int{}}
 	var cases []string
-	shardNo := 0
+	shardNo, firstCase, shardBytes := 0, 0, 0
 	flush := func() {
 		if len(cases) == 0 {
 			return
 		}
 		name := filepath.Join(*out, fmt.Sprintf("codec_%05d.v", shardNo))
 		txt := "From Coq Require Import NArith List.\nFrom ColumnV Require Import Bytes Ops Buffer CodecCheck.\nImport ListNotations.\nLocal Open Scope N_scope.\n" +
-			fmt.Sprintf("Definition M := Eval vm_compute in check_ccases %d [\n %s].\nPrint M.\n", shardNo**per, strings.Join(cases, ";\n "))
+			fmt.Sprintf("Definition M := Eval vm_compute in check_ccases %d [\n %s].\nPrint M.\n", firstCase, strings.Join(cases, ";\n "))
 		os.WriteFile(name, []byte(txt), 0o644)
 		s.Shards = append(s.Shards, name)
-		cases = nil
+		firstCase += len(cases)
+		cases, shardBytes = nil, 0
 		shardNo++
 	}
 	for i := 0; i < *n; i++ {
@@ -343,9 +350,10 @@ func cmdCodec(args []string) {
 		if rng.Chance(15) {
 			ln = 40 + rng.Intn(160)
 		}
-		if *long && rng.Chance(5) {
+		if *long && rng.Chance(2) {
 			ln = 500 + rng.Intn(1500)
 		}
+		hugeInCase = false
 		ops := genOps(rng.Fork(uint64(i)), ln, *long)
 		if ln > s.MaxLen {
 			s.MaxLen = ln
@@ -391,6 +399,7 @@ func cmdCodec(args []string) {
 		}
 		c := fmt.Sprintf("mkcc [%s]\n   %s [%s] %d\n   [%s]", strings.Join(opsS, "; "), coqBytes(raw), strings.Join(hs, "; "), uint32(last), strings.Join(ranges, "; "))
 		cases = append(cases, c)
+		shardBytes += len(c)
 		if len(s.Samples) < 2 && len(c) < 1500 {
 			s.Samples = append(s.Samples, c)
 		}
@@ -402,7 +411,7 @@ func cmdCodec(args []string) {
 			s.Failures = append(s.Failures, fmt.Sprintf("case %d: %s", i, f))
 		}
 		s.Rewrites++
-		if len(cases) >= *per {
+		if len(cases) >= *per || shardBytes > 1200000 { // coqc's parser overflows its stack on multi-megabyte terms
 			flush()
 		}
 	}
